@@ -7,7 +7,6 @@ mod c32;
 mod c33;
 mod c36;
 mod c49;
-mod probe;
 mod sim;
 
 fn main() {
@@ -25,7 +24,6 @@ fn main() {
         "C33" => c33::run(args),
         "C36" => c36::run(args),
         "C49" => c49::run(args),
-        "PROBE" => probe::run(args),
         p => {
             println!("INCONCLUSIVE property={p} reason=idmsim does not serve this property");
             std::process::exit(2);
